@@ -2,7 +2,7 @@ import HpoModel
 open Hpo Hpo.Drv
 
 def handlers : List (DState → List String → Option Out) :=
-  [Drv.handle, Drv.handleGroup, Drv.handleTermId, Drv.handleQuery, Drv.handleFacts, Drv.handleSetCmp, Drv.handleText, Drv.handlePath, Drv.handleSim, Drv.handleBinary, Drv.handleEnrich, Drv.handleLinkage]
+  [Drv.handle, Drv.handleGroup, Drv.handleTermId, Drv.handleQuery, Drv.handleAnc2, Drv.handleFacts, Drv.handleSetCmp, Drv.handleText, Drv.handlePath, Drv.handleSim, Drv.handleBinary, Drv.handleEnrich, Drv.handleLinkage]
 
 def dispatch (s : DState) (toks : List String) : Out :=
   let rec go : List (DState → List String → Option Out) → Out
